@@ -3,7 +3,10 @@
 package ingest
 
 import (
+	"context"
+
 	zz "github.com/basekick-labs/arc/internal/zzverif"
+	"github.com/basekick-labs/arc/pkg/models"
 	"github.com/rs/zerolog"
 )
 
@@ -88,5 +91,102 @@ func VerifC04Schema() {
 	cols := map[string]interface{}{"time": []int64{1}, name: c04Col("c", 1)}
 	w := &ArrowWriter{logger: zerolog.Nop()}
 	_, _ = w.getSchema("cpu", cols, nil, false, nil)
+	zz.Reach("end")
+}
+
+// ---- row-format records: column alignment ----
+
+var c04Seen []*models.ColumnarRecord
+
+// c04ObsInternal replaces writeColumnarInternal: records what reaches the buffering layer.
+func c04ObsInternal(b *ArrowBuffer, ctx context.Context, database string, record *models.ColumnarRecord, skipWAL bool) error {
+	c04Seen = append(c04Seen, record)
+	return nil
+}
+
+var c04RowNames = []string{"time", "x", "x_value", "v"}
+
+// VerifC04Rows: two row-format records (msgpack row / batch payloads) of one measurement,
+// each with an optional tag and one or two fields whose names range over time, x, x_value,
+// v, go through ArrowBuffer.Write (dispatch, grouping, rowsToColumnar). The write is either
+// refused, or what reaches the buffering layer has every column exactly as long as the
+// number of rows - the precondition of the flush, which indexes every column with the
+// time column's permutation (a longer time column panics the flush goroutine).
+func VerifC04Rows() {
+	zz.ClockFixed(1700000000000000000)
+	var recs []interface{}
+	for i := 0; i < 2; i++ {
+		s := string(rune('0' + i))
+		r := &models.Record{Measurement: "cpu", Timestamp: int64(1700000000000000 + i), Fields: map[string]interface{}{}}
+		if zz.Bool("has_tag_" + s) {
+			r.Tags = map[string]string{c04RowNames[zz.Choice("tag_name_"+s, len(c04RowNames))]: "a"}
+		}
+		r.Fields[c04RowNames[zz.Choice("field_name_"+s, len(c04RowNames))]] = float64(i)
+		if zz.Bool("second_field_" + s) {
+			r.Fields[c04RowNames[zz.Choice("field2_name_"+s, len(c04RowNames))]] = float64(i + 10)
+		}
+		recs = append(recs, r)
+	}
+	c04Seen = nil
+	b := &ArrowBuffer{logger: zerolog.Nop()}
+	err := b.Write(context.Background(), "db", recs)
+	if err != nil {
+		zz.Assert(len(c04Seen) == 0, "a refused write handed rows to the buffering layer")
+		zz.Reach("refused")
+		return
+	}
+	zz.Assert(len(c04Seen) == 1, "two rows of one measurement did not reach the buffering layer as one record")
+	for _, rec := range c04Seen {
+		for name, col := range rec.Columns {
+			zz.Assert(len(col) == 2, "column "+name+" of an accepted row-format write is not as long as the number of rows")
+		}
+		tc, ok := rec.Columns["time"]
+		zz.Assert(ok && len(tc) == 2, "no time column")
+		if ok && len(tc) == 2 {
+			t0, ok0 := tc[0].(int64)
+			t1, ok1 := tc[1].(int64)
+			zz.Assert(ok0 && ok1 && t0 == 1700000000000000 && t1 == 1700000000000001, "the time column does not hold the records' timestamps")
+		}
+	}
+	zz.Reach("accepted")
+}
+
+// VerifC04TLE: an arbitrary short TLE body (every byte string of the given length, so every
+// placement of line breaks, every short "1 ..." line, blank lines, CRLF) goes through
+// ParseTLEFile without a Go panic (bounds and slice checks are engine obligations).
+func VerifC04TLE() {
+	data := zz.Bytes("body", zz.ParamInt("bytes", 6))
+	recs, _ := NewTLEParser().ParseTLEFile(data)
+	zz.Assert(len(recs) == 0, "a body far shorter than one 69-column line produced a record")
+	zz.Reach("end")
+}
+
+// VerifC04LPColumns: the same name pool through the line-protocol conversion
+// (BatchToColumnar): every column is as long as the number of rows and the time column holds
+// the rows' timestamps - a tag or field that is itself called time must not replace them.
+func VerifC04LPColumns() {
+	var recs []*models.Record
+	for i := 0; i < 2; i++ {
+		s := string(rune('0' + i))
+		r := &models.Record{Measurement: "cpu", Timestamp: int64(1700000000000000 + i), Fields: map[string]interface{}{}}
+		if zz.Bool("has_tag_" + s) {
+			r.Tags = map[string]string{c04RowNames[zz.Choice("tag_name_"+s, len(c04RowNames))]: "a"}
+		}
+		r.Fields[c04RowNames[zz.Choice("field_name_"+s, len(c04RowNames))]] = float64(i)
+		recs = append(recs, r)
+	}
+	out := BatchToColumnar(recs)
+	zz.Assert(len(out) == 1, "one measurement expected")
+	for _, rec := range out {
+		for name, col := range rec.Columns {
+			zz.Assert(len(col) == 2, "column "+name+" is not as long as the number of rows")
+		}
+		tc := rec.Columns["time"]
+		if len(tc) == 2 {
+			t0, ok0 := tc[0].(int64)
+			t1, ok1 := tc[1].(int64)
+			zz.Assert(ok0 && ok1 && t0 == 1700000000000000 && t1 == 1700000000000001, "the time column does not hold the rows' timestamps")
+		}
+	}
 	zz.Reach("end")
 }
